@@ -589,6 +589,22 @@ func (e *env) build(cs Case) (*layout, error) {
 	switch cs.Src {
 	case "present":
 		must(os.WriteFile(l.src, data, 0o644))
+	case "zeros", "zerotail", "zerohead":
+		// content with long runs of zero bytes, really written (no holes): all of it, its last 64 KiB
+		// blocks, or its first ones - what a disk image, a preallocated file or a tar padding looks like
+		z := len(data)
+		switch cs.Src {
+		case "zerotail":
+			z = min(len(data), max(1<<16, len(data)/2))
+		case "zerohead":
+			z = -min(len(data), max(1<<16, len(data)/2))
+		}
+		if z >= 0 {
+			clear(data[len(data)-z:])
+		} else {
+			clear(data[:-z])
+		}
+		must(os.WriteFile(l.src, data, 0o644))
 	case "missing":
 	case "symlink":
 		real = filepath.Join(realDir, "real.bin")
@@ -751,6 +767,17 @@ func (e *env) build(cs Case) (*layout, error) {
 			return dir + "//" + base
 		case "dot":
 			return dir + "/./" + base
+		case "linkdotdot":
+			// through a directory symlink and back up: other/link -> dir/zsub, so that other/link/../base
+			// is dir/base for the kernel (and other/base for anyone who cleans the path lexically)
+			other := filepath.Join(filepath.Dir(dir), "zother-"+filepath.Base(dir))
+			must(os.MkdirAll(filepath.Join(dir, "zsub"), 0o755))
+			must(os.MkdirAll(other, 0o755))
+			lk := filepath.Join(other, "link")
+			os.Remove(lk)
+			must(os.Symlink(filepath.Join(dir, "zsub"), lk))
+			os.WriteFile(filepath.Join(other, base), []byte("the wrong file: other/"+base), 0o644)
+			return lk + "/../" + base
 		}
 		return p
 	}
@@ -1158,6 +1185,30 @@ func largeCases(a shardArgs, forced bool) []Case {
 	ops := []string{"copy", "move"}
 	if forced {
 		ops, a.SrcFS, a.DstFS = []string{"move"}, "root", "root"
+	}
+	// zero-filled content (sizes that are whole multiples of 64 KiB and not) and paths spelled through a
+	// directory symlink followed by ".."
+	for _, size := range []int{1 << 16, 1<<16 + 1, 3 << 16, 1 << 20, 1<<20 + 4097} {
+		for _, op := range ops {
+			for _, src := range []string{"zeros", "zerotail", "zerohead"} {
+				cs := Case{Op: op, Size: size, SrcFS: a.SrcFS, DstFS: a.DstFS, Src: src, Dst: []string{"missing", "longer"}[(size+len(src))%2]}
+				if forced {
+					cs.Fault = &Fault{RenameErr: "EXDEV"}
+				}
+				out = append(out, cs)
+			}
+		}
+	}
+	for _, op := range ops {
+		for _, sp := range []string{"src-linkdotdot", "dst-linkdotdot", "both-linkdotdot"} {
+			for _, dst := range []string{"missing", "longer"} {
+				cs := Case{Op: op, Size: 4097, SrcFS: a.SrcFS, DstFS: a.DstFS, Src: "present", Dst: dst, Spell: sp}
+				if forced {
+					cs.Fault = &Fault{RenameErr: "EXDEV"}
+				}
+				out = append(out, cs)
+			}
+		}
 	}
 	for _, size := range sizesLarge {
 		srcs := []string{"present"}
